@@ -27,6 +27,8 @@ def handle (op : String) (a : Json) : Except String Json := do
   | "project" => return boolJ (projectOk (← fldStrs a "task_clips") (← fldStrs a "ann_clips"))
   | "clip" => return boolJ (clipOk (← fldRat a "start") (← fldRat a "end"))
   | "unit" => return boolJ (optUnitOk (← fldOptRat a "x"))
+  -- inputs with no rational reading (missing / null / non-numeric): never a valid object
+  | "malformed" => return boolJ false
   | _ => .error s!"C04: unknown op {op}"
 
 end SE.Ops.C04
